@@ -296,11 +296,13 @@ func runKeys(cs json.RawMessage) map[string]any {
 }
 
 var universe = func() map[string]digest.Digest {
+	const emptyHash = "e3b0c44298fc1c149afbf4c8996fb92427ae41e4649b934ca495991b7852b855"
 	return map[string]digest.Digest{
 		"d1": digest.MustNewDigest("", remoteexecution.DigestFunction_SHA256, hexOfLen(64, 9), 5),
 		"d2": digest.MustNewDigest("a", remoteexecution.DigestFunction_SHA256, hexOfLen(64, 9), 5),
-		"d3": digest.MustNewDigest("", remoteexecution.DigestFunction_SHA256, hexOfLen(64, 11), 7),
-		"d4": digest.MustNewDigest("a", remoteexecution.DigestFunction_SHA256, "e3b0c44298fc1c149afbf4c8996fb92427ae41e4649b934ca495991b7852b855", 0),
+		"d3": digest.MustNewDigest("", remoteexecution.DigestFunction_SHA256, emptyHash, 0),
+		"d4": digest.MustNewDigest("a", remoteexecution.DigestFunction_SHA256, emptyHash, 0),
+		"d5": digest.MustNewDigest("b", remoteexecution.DigestFunction_SHA256, hexOfLen(64, 11), 7),
 	}
 }()
 
@@ -367,13 +369,13 @@ func runSets(cs json.RawMessage, rng *rand.Rand) map[string]any {
 			intact = intact && fmt.Sprint(namesOf(s)) == fmt.Sprint(before[i])
 		}
 		o["inputsIntact"] = intact
-		all := []string{"d1", "d2", "d3", "d4"}
+		all := []string{"d1", "d2", "d3", "d4", "d5"}
 		sort.Slice(all, func(a, b int) bool { return universe[all[a]].String() < universe[all[b]].String() })
 		rank := map[string]int{}
 		for i, n := range all {
 			rank[n] = i
 		}
-		o["rank"], o["instOf"], o["emptyOnes"] = rank, map[string]string{"d1": "", "d2": "a", "d3": "", "d4": "a"}, []string{"d4"}
+		o["rank"], o["instOf"], o["emptyOnes"] = rank, map[string]string{"d1": "", "d2": "a", "d3": "", "d4": "a", "d5": "b"}, []string{"d3", "d4"}
 	})
 	return o
 }
